@@ -59,7 +59,7 @@ func (n *TNode) String() string {
 	for i, k := range n.Kids {
 		parts[i] = k.String()
 	}
-	c := []string{"E", "E+C", "E+T", "E+C+T", "Select", "Array"}[n.Caps]
+	c := []string{"E", "E+C", "E+T", "E+C+T", "Select", "Array", "E+keep", "nil"}[n.Caps%8]
 	return fmt.Sprintf("%s(%s)", c, strings.Join(parts, " "))
 }
 
@@ -82,7 +82,9 @@ func genTNode(t *rapid.T, depth int) *TNode {
 		}
 		return n
 	}
-	n := &TNode{Kind: 2, Caps: rapid.SampledFrom([]int{0, 1, 1, 2, 3, 4, 5, 6}).Draw(t, "caps")}
+	// (7: no interpreter at all - a sequence nobody called Bind on: it can be walked, checked and
+	// transformed like any node without capabilities; it cannot be evaluated)
+	n := &TNode{Kind: 2, Caps: rapid.SampledFrom([]int{0, 1, 1, 2, 3, 4, 5, 6, 0, 1, 2, 3, 7}).Draw(t, "caps")}
 	n.OwnWalk = rapid.IntRange(0, 7).Draw(t, "ownWalk") == 0
 	nk := rapid.IntRange(0, 4).Draw(t, "nk")
 	for i := 0; i < nk; i++ {
@@ -335,6 +337,8 @@ func buildT(n *TNode, e *env13, pos *int) parsley.Node {
 			in = bothI{checkI{b}}
 		case 6:
 			in = identI{b}
+		case 7:
+			in = nil
 		case 4:
 			in = interpreter.Select(n.Sel)
 		case 5:
@@ -728,7 +732,16 @@ func checkC13(ci interface{}, st *Stats) (err error) {
 	}
 
 	// ---------- Evaluate ----------
-	if c.Alts == 0 {
+	hasNilInterp := false
+	for _, n := range post {
+		if n.Kind == 2 && n.Caps == 7 {
+			hasNilInterp = true
+		}
+	}
+	if hasNilInterp {
+		st.Class("a non-terminal without interpreter in the tree (not evaluated)")
+	}
+	if c.Alts == 0 && !hasNilInterp {
 		e, root, _ = c.fresh()
 		if c.FailEval >= 0 {
 			e.failEval = c.FailEval % total
@@ -857,7 +870,7 @@ func checkC13(ci interface{}, st *Stats) (err error) {
 	}
 
 	// ---------- parsley.Evaluate: the value of the tree parsley.Parse returns ----------
-	if c.Alts == 0 {
+	if c.Alts == 0 && !hasNilInterp {
 		type evalOut struct {
 			val      string
 			failed   bool
